@@ -26,7 +26,7 @@ def sh(cmd, timeout=3600, cwd=None, env=None):
 # -------------------------------------------------------------------------------------------------
 def extract():
     rc, out, err = sh(['python3', os.path.join(VERIF, 'tools', 'extract.py')], cwd=VERIF)
-    line = [l for l in out.splitlines() if l.startswith('{')]
+    line = [l for l in out.split('\n') if l.startswith('{')]
     if rc != 0 or not line:
         return {'ok': False, 'error': (err or out)[-2000:]}
     d = json.loads(line[-1])
@@ -105,7 +105,7 @@ def prop_targets(pid):
 def run_py(script_args, timeout=3000):
     """run a tools/ script under the venv with the real pane importable; returns parsed JSON of the last line"""
     rc, out, err = sh([PY] + script_args, cwd=VERIF, env=ENV, timeout=timeout)
-    lines = [l for l in out.splitlines() if l.startswith('{')]
+    lines = [l for l in out.split('\n') if l.startswith('{')]
     if not lines:
         return {'ok': False, 'error': f'rc={rc} ' + (err or out)[-3000:]}
     try:
